@@ -70,6 +70,8 @@ def source_of(case):
 SECOND_CLASS = {"spec_C04": "kf_C04_accessor_gap", "spec_C19_defs": "kf_C04_accessor_gap"}
 # a third one (code 4)
 THIRD_CLASS = {"spec_C04": "kf_C04_copy_shadows"}
+# a fourth one (code 5)
+FOURTH_CLASS = {"spec_C04": "kf_C04_hidden_definer", "spec_C19_defs": "kf_C04_hidden_definer"}
 
 
 def run(out, build, problems, prop, tier, specs, gen_cases, nquick, nthorough, rule, replay=None, known=None):
@@ -127,18 +129,20 @@ def run(out, build, problems, prop, tier, specs, gen_cases, nquick, nthorough, r
                 known_hits[s + "#2"] += 1
             elif code[1 + i] == 4:
                 known_hits[s + "#3"] += 1
+            elif code[1 + i] == 5:
+                known_hits[s + "#4"] += 1
             if code[1 + ns + i] == 2:
                 model_fail.append((s, c, o))
     kf = C.load_known_findings()
     listed = {f["id"]: f for f in kf.get("findings", []) if f["property"] == prop}
     for s, n in known_hits.items():
-        fid = (THIRD_CLASS.get(s[:-2]) if s.endswith("#3") else SECOND_CLASS.get(s[:-2]) if s.endswith("#2")
-               else (known or {}).get(s))
+        fid = (FOURTH_CLASS.get(s[:-2]) if s.endswith("#4") else THIRD_CLASS.get(s[:-2]) if s.endswith("#3")
+               else SECOND_CLASS.get(s[:-2]) if s.endswith("#2") else (known or {}).get(s))
         if fid and fid in listed:
             out.known_finding("%s (%d histories in the class on this run)" % (listed[fid]["what"], n))
         else:
-            want = 4 if s.endswith("#3") else (3 if s.endswith("#2") else 1)
-            s = s[:-2] if s.endswith(("#2", "#3")) else s
+            want = 5 if s.endswith("#4") else 4 if s.endswith("#3") else (3 if s.endswith("#2") else 1)
+            s = s[:-2] if s.endswith(("#2", "#3", "#4")) else s
             c, o = next((c, o) for (c, o), code in zip(live, codes) if code[1 + specs.index(s)] == want)
             out.violation("%s differs from the declared contracts in a class that is not a listed finding" % s,
                           {"case": c, "observation": strip(o), "script": source_of(c)})
